@@ -165,7 +165,11 @@ def explain(cfg, pid, replay_lines, workdir):
         d = os.path.join(workdir, "explain%d" % k)
         shutil.rmtree(d, ignore_errors=True)
         os.makedirs(d)
-        rc, out = sh([HARNESS, cfg["harness"], "--only", line, "--out", d, "--shards", "1"], timeout=600)
+        open(os.path.join(d, "only.txt"), "w").write(line)
+        try:
+            rc, out = sh([HARNESS, cfg["harness"], "--only-file", os.path.join(d, "only.txt"), "--out", d, "--shards", "1"], timeout=600)
+        except Exception as e:
+            rc, out = 1, str(e)
         entry = {"case": line, "impl_case_term": None, "model_says": None}
         fs = sorted(glob.glob(os.path.join(d, "*_00.v")))
         if rc == 0 and fs:
@@ -261,7 +265,8 @@ def check(pid, tier, seed, only=None):
     else:
         cmd = [HARNESS, cfg["harness"], "--seed", str(seed), "--tier", tier, "--out", work]
         if only:
-            cmd += ["--only", only]
+            open(os.path.join(work, "only.txt"), "w").write(only)
+            cmd += ["--only-file", os.path.join(work, "only.txt")]
         rc, out = sh(cmd, timeout=cfg.get("harness_timeout", 1500))
         log.append(("harness", out[-3000:]))
         if rc != 0:
@@ -397,8 +402,15 @@ def main(argv):
         i += 1
     if tier not in ("quick", "thorough"):
         tier = "quick"
-    rc = check(pid, tier, seed, only)
+    def guarded():
+        try:
+            return check(pid, tier, seed, only)
+        except Exception:
+            import traceback
+            print("TOOL-ERROR: the check driver crashed: " + traceback.format_exc()[-1200:], file=sys.stderr)
+            return 2
+    rc = guarded()
     # retry once on a pure tool error
     if rc == 2:
-        rc = check(pid, tier, seed, only)
+        rc = guarded()
     return rc
